@@ -304,8 +304,9 @@ pub fn run(ctx: &mut Ctx) {
     // every cut position of the base scenarios is enumerated in both tiers (fewer scenarios in the quick one)
     ctx.set_level("fault_enumeration");
     enumerate_cuts(ctx, ctx.tier.pick(24, 400));
+    crate::props::c03b::run(ctx);
 }
 
 pub fn replay(v: &Value) -> Option<i32> {
-    replay_file::<E2e>("C03", v)
+    replay_file::<E2e>("C03", v).or_else(|| crate::props::c03b::replay(v))
 }
